@@ -10,7 +10,7 @@ TECH = "bounded model checking of the compiled Rust (Kani 0.68 -> CBMC 6.11 -> C
 CHECKS = {
  "C01": ("§6.C01", "For each built-in instantiation of the catalogue the solver decides, for every value (all payload bits symbolic; every shape with <= 2-3 elements per sequence, <= 1-2 characters per string enumerated with concrete structure bytes), that the real encoder emits exactly the reference bytes and that the real decoder maps the reference bytes back to the value; together: decode(encode(v)) == v. Bounded by the catalogue and the container sizes, not by sampled values.",
          "hash/ordered sets and maps, DateTime<Local>, Tz, BigDecimal/BigInt and containers above the stated sizes are outside the claim; the quantifier over type expressions is enumerated by the catalogue (depth <= 3), not solved"),
- "C02": ("§6.C02", "Translation validation of the derive macro per catalogue entry: the code the real macro generates for ~20 declarations (unit/named structs, three Option spellings, transient fields first/middle/last, nested, recursive, enums incl. transient and sorted constructors, and evolved declarations on the encode side) produces byte-for-byte the output of the hand-applied field-by-field procedure and decodes it back, for all field values.",
+ "C02": ("§6.C02", "Translation validation of the derive macro per catalogue entry: the code the real macro generates for ~25 declarations (unit/named structs, three Option spellings, transient fields first/middle/last and in tuple variants, nested, recursive, enums incl. transient, sorted and case-sensitive-sorted constructors, and eight evolved declarations on the encode side) produces byte-for-byte the output of the hand-applied field-by-field procedure and decodes it back, for all field values.",
          "programs (declarations) are enumerated, not quantified; decoding of records with stored version >= 1 is outside (symbolic execution of AdtDeserializer::new does not finish); hashbrown replaced by an association list under cfg(kani)"),
  "C03": ("§6.C03", "Partial: (a) the real chunked writer of six evolved declarations (FieldAdded, FieldMadeOptional, FieldRemoved, FieldMadeTransient, two generations, evolved enum variant) emits exactly the reference header and chunk layout for all field values; (b) reader on stored version 0: default / specific error / wrap; extended enums read old data; (c) reader on stored version >= 1 as two kernels over the real functions: K1 AdtDeserializer::new maps a catalogue of concrete headers (older, same and newer reader) to exactly the header's chunk windows, made-optional positions and removed names and leaves the cursor after the last chunk; K2 read_field/read_optional_field from that state give the documented outcome table (unwrap / NonOptionalFieldSerializedAsNone / removed / window confinement), chunk bytes symbolic.",
          "whole-record decoding with stored version >= 1 is not executed (does not finish, DESIGN §2.4): the composition K1;K2 is an informal argument; histories and headers are the catalogue's"),
@@ -20,18 +20,18 @@ CHECKS = {
          "dev-profile semantics (release wrap-around only via replay); byte strings above the stated lengths, records with stored version >= 1 (hostile headers) and read_compressed are outside; allocation sizes are not measured"),
  "C06": ("§6.C06", "Ok(v) implies the strict reference decoder yields v, on all byte strings within the C05 bounds (tags, counts, array counts, lengths); chunk-window confinement as a one-step inductive kernel over the real region operations (push one or two nested windows with symbolic bounds, one symbolic read): bytes returned lie inside the window, overrun is an error, pop restores the parent.",
          "whole tampered records with headers are outside: that AdtDeserializer::new derives the windows correctly from the header is not checked; splice/duplicate tamperings outside"),
- "C07": ("§6.C07", "For every catalogue type and shape, decoding from reference-encoding ++ two symbolic bytes returns the value and leaves exactly those two bytes readable, then end of input.",
-         "stored version 0 only; suffix length fixed at 2; 'unknown chunks are skipped in full' (headers) outside"),
- "C08": ("§6.C08", "For every catalogue type and shape, every strict prefix of the reference encoding (cut point symbolic) decodes to Err.",
-         "stored version 0 only; encodings <= 48 bytes"),
+ "C07": ("§6.C07", "For every catalogue type and shape, decoding from reference-encoding ++ two symbolic bytes returns the value and leaves exactly those two bytes readable, then end of input; arrays and vectors consume the unknown-length form in full; kernel K1: AdtDeserializer::new leaves the record cursor after the last chunk for older, same and newer readers (unknown chunks skipped in full); the varint round trip ends exactly at the encoded length.",
+         "whole records with headers only through kernel K1 (catalogue of concrete headers); suffix length fixed at 2"),
+ "C08": ("§6.C08", "For 18 catalogue types and all their shapes, every strict prefix of the reference encoding (cut points enumerated with concrete lengths, payload symbolic) decodes to Err; also an unknown-length sequence without its terminator and a record cut before the tag of a trailing optional field.",
+         "stored version 0 only; truncation of derived enums, strings and sequences with more than two elements does not finish (tier=off)"),
  "C10": ("§6.C10", "Small: a user codec built on store_ref_or_object / try_read_ref (identity = heap address), labels symbolic: quick tier decides the one-node graph (encode == reference stream, decode rebuilds it) and that on a fresh stream every non-zero object number is InvalidRefId for all 5-byte varints; the thorough tier adds the two-node chain (distinct nodes stay distinct, no edge invented).",
          "anything with more than two offers in one stream does not finish (pointers stored in heap-allocated map entries): cycles/diamonds on 3 nodes and offer histories are kept as tier=off harnesses; the seeded change M-C10 is not caught"),
  "C11": ("§6.C11", "Exactly the property's quantifier: all 2^32 u32 and all 2^32 i32 values through Vec<u8>, BytesMut and SizeCalculator outputs and SliceInput, OwnedInput and DeserializationContext inputs: bytes == reference formula, minimal length, continuation bits, read inverts write, cursor advanced by the length. No bound.",
          "none beyond the trusted base"),
- "C12": ("§6.C12", "One symbolic element list (n = 0, 2, 3) in the known-length and in the unknown-length form decodes identically as Vec, LinkedList and [E; n]; Vec, slice, array, LinkedList encode identically and an inexact iterator yields the unknown-length form; byte containers (Vec<u8>, &[u8], [u8; n], Bytes) are interchangeable.",
+ "C12": ("§6.C12", "One symbolic element list (n = 0, 2, 3; also zero-width elements) in the known-length and in the unknown-length form decodes identically as Vec, LinkedList and [E; n]; Vec, slice, array, LinkedList encode identically; inexact iterators (no upper bound; symbolic upper bound) yield the unknown-length form; byte containers (Vec<u8>, &[u8], [u8; n], Bytes) are interchangeable.",
          "hash/ordered set and map targets outside; element types u16, (u8,u8), Option<u8>"),
- "C13": ("§6.C13", "Constructor index = declaration position (or name order when sorted) byte-for-byte; data of E decodes under E extended by appended constructors to the corresponding value; every unknown index (all one- and two-byte varints >= n) and the index of a transient constructor decode to Err, never a panic.",
-         "catalogue of enum pairs; indices above two varint bytes outside"),
+ "C13": ("§6.C13", "Constructor index = declaration position (or case-sensitive name order when sorted, also with a transient constructor that moves under sorting) byte-for-byte; data of E decodes under E extended by appended constructors to the corresponding value; every unknown index (every varint of 1-5 bytes >= n) and the index of a transient constructor decode to Err, never a panic.",
+         "catalogue of enums; payload behind an unknown index is zero bytes"),
  "C14": ("§6.C14", "Values differing only in transient fields encode identically (encoder bytes equal the reference that ignores them, for all transient values); decoding sets the declared default (defaults chosen != Default::default()); transient constructors at first/middle/last position give the dedicated error with type and constructor name in both directions; a FieldMadeTransient history encodes.",
          "the 'made optional, later made transient' history is outside the catalogue"),
  "C15": ("§6.C15", "Vec<u8>, BytesMut, serialize_to_bytes, serialize_to_byte_vec and a recording user output produce the reference bytes and SizeCalculator reports their count, for catalogue values; SliceInput, OwnedInput and DeserializationContext agree on the result of one symbolic primitive read (9 primitives, full-width symbolic count) after a symbolic skip over every buffer <= 6 bytes, and on where the input ends afterwards.",
